@@ -1,6 +1,11 @@
 import CkbVerif.Lemmas.MoleculeVerify
 import CkbVerif.Lemmas.Json
 import CkbVerif.Gen.Schemas
+import CkbVerif.Lemmas.HashBody
+import CkbVerif.Lemmas.HashLayout
+import CkbVerif.Lemmas.HashBlockBytes
+import CkbVerif.Lemmas.HashView
+import CkbVerif.Lemmas.HashCbmtArray
 /-!
 # C15 — wire and storage encodings round-trip losslessly and hashes commit to content
 
@@ -124,6 +129,394 @@ theorem witness_hash_binds_all (t1 t2 : Val) (h1 : wfv S.Transaction t1 = true) 
 theorem header_hash_binds_all (h1 h2 : Val) (w1 : wfv S.Header h1 = true) (w2 : wfv S.Header h2 = true)
     (h : encode S.Header h1 = encode S.Header h2) : h1 = h2 :=
   encode_injective S.Header h1 h2 (by decide +kernel : wf S.Header = true) w1 w2 h
+
+
+/-! ### hash STRUCTURE of a block: CBMT, transactions root, proposals hash, extra hash, `reset_header`
+
+Model: `Model/Hash.lean` (`cbmtRoot` = `merkle_cbt::CBMT::build_merkle_root` loop by loop,
+`resetFields` = `reset_header_with_hashes` / `BlockBuilder::build_internal(true)`).  Digests are an
+abstract type with the operations of `HashAlg`; every theorem names the collision-freeness
+hypotheses it uses (`Injective2 merge`, or the bundle `CollisionFree`), which are satisfied by the
+free term algebra (`collision_free_satisfiable`) — the same algebra the driver prints, so the
+correspondence compares which bytes the real code hashed, term by term. -/
+section hash_structure
+open CkbVerif.Hash
+
+/-- the hypotheses of the theorems below are satisfiable (free term algebra) -/
+theorem collision_free_satisfiable : CollisionFree termAlg := termAlg_collisionFree
+
+/-- **CBMT, equal lengths.** With `merge` injective (collision-free), two leaf lists of the same
+length with the same `build_merkle_root` are equal: the root binds order and content.  Nothing
+about leaves vs inner nodes is needed, the tree shape is a function of the leaf count. -/
+theorem cbmt_root_injective_same_length {α : Type} (merge : α → α → α) (hinj : Injective2 merge) (zero : α)
+    (l1 l2 : List α) (hlen : l1.length = l2.length) (h : cbmtRoot merge zero l1 = cbmtRoot merge zero l2) :
+    l1 = l2 :=
+  cbmtRoot_inj_same_length merge hinj zero l1 l2 hlen h
+
+/-- **CBMT has no domain separation between leaves and inner nodes**: for every `merge`, the
+2-leaf list `[merge b c, a]` and the 3-leaf list `[a, b, c]` have the same root.  Lists of
+different lengths collide structurally exactly when a leaf is itself a `merge` output. -/
+theorem cbmt_no_domain_separation {α : Type} (merge : α → α → α) (zero a b c : α) :
+    cbmtRoot merge zero [merge b c, a] = cbmtRoot merge zero [a, b, c] :=
+  cbmt_structural_collision merge zero a b c
+
+/-- **CBMT, length binding.** If no leaf is a `merge` output or the zero digest (and zero is not a
+`merge` output), the root determines the leaf list whatever the lengths. -/
+theorem cbmt_root_binds_length {α : Type} (merge : α → α → α) (hinj : Injective2 merge) (zero : α)
+    (hz : ∀ a b, merge a b ≠ zero) (l1 l2 : List α)
+    (h1 : ∀ x ∈ l1, x ≠ zero ∧ ∀ a b, x ≠ merge a b) (h2 : ∀ x ∈ l2, x ≠ zero ∧ ∀ a b, x ≠ merge a b)
+    (h : cbmtRoot merge zero l1 = cbmtRoot merge zero l2) : l1 = l2 :=
+  cbmtRoot_inj_any_length merge hinj zero hz l1 l2 h1 h2 h
+
+/-- the merge-TERM correspondence: the real root is the evaluation of the root computed by the same
+algorithm in the free term algebra (this is what the `cbmt`/`vblk` ops of stream `view` compare) -/
+theorem cbmt_root_is_merge_term {α : Type} (merge : α → α → α) (zero : α) (l : List α) :
+    cbmtRoot merge zero l = Tm.eval merge (cbmtRoot Tm.node (Tm.atom zero) (l.map Tm.atom)) :=
+  cbmtRoot_eval merge zero l
+
+/-- **`build_merkle_root` is the root of the array-form complete binary merkle tree**: `nodes[0]`
+where `nodes[n-1+j] = leaf j` and `nodes[i] = merge nodes[2i+1] nodes[2i+2]` — leaf order, the
+odd-count rule and the orientation of every merge of the queue algorithm are those of the array
+(`build_merkle_tree`, RFC 0006) -/
+theorem cbmt_root_is_array_tree_root {α : Type} (merge : α → α → α) (zero : α) (leaves : List α) (hne : leaves ≠ []) :
+    cbmtRoot merge zero leaves = nodeAt merge zero leaves 0 :=
+  cbmtRoot_eq_nodeAt merge zero leaves hne
+
+/-- … and the empty list has root `T::default()` -/
+theorem cbmt_root_empty {α : Type} (merge : α → α → α) (zero : α) : cbmtRoot merge zero [] = zero := rfl
+
+variable {D : Type} {A : HashAlg D}
+
+/-- `transactions_root = merge(raw_root, witness_root)` -/
+theorem transactions_root_is_merge (txs : List Bytes) :
+    transactionsRoot A txs = merge A (rawTransactionsRoot A txs) (witnessesRoot A txs) := rfl
+
+/-- the raw root (and every tx hash) ignores witnesses: transactions with the same `raw` parts, in
+the same order, have the same raw transactions root -/
+theorem raw_root_ignores_witnesses (t1 t2 : List Bytes) (h : t1.map txRaw = t2.map txRaw) :
+    rawTransactionsRoot A t1 = rawTransactionsRoot A t2 := by
+  unfold rawTransactionsRoot
+  have : t1.map (txHash A) = t2.map (txHash A) := by
+    have := congrArg (List.map A.hb) h
+    simp only [List.map_map] at this
+    exact this
+  rw [this]
+
+/-- `transactions_root` binds order, content and witnesses of the transaction list, across lengths.
+The length binding comes from the WITNESS root: a whole-`Transaction` encoding is ≥ 68 bytes
+(`transaction_encoding_never_64`), an inner node hashes exactly 64.  (A `RawTransaction` encoding
+CAN be exactly 64 bytes — `raw_transaction_can_be_64` — so the raw root alone has no such binding.) -/
+theorem transactions_root_binds_txs (cf : CollisionFree A) (t1 t2 : List Bytes)
+    (h1 : ∀ t ∈ t1, t.length ≠ 64) (h2 : ∀ t ∈ t2, t.length ≠ 64)
+    (h : transactionsRoot A t1 = transactionsRoot A t2) : t1 = t2 :=
+  transactionsRoot_inj cf t1 t2 h1 h2 h
+
+/-- a witness-only change (same raws, different whole encodings) keeps the raw root and changes the
+transactions root -/
+theorem witness_change_changes_root (cf : CollisionFree A) (t1 t2 : List Bytes)
+    (h1 : ∀ t ∈ t1, t.length ≠ 64) (h2 : ∀ t ∈ t2, t.length ≠ 64)
+    (hraw : t1.map txRaw = t2.map txRaw) (hne : t1 ≠ t2) :
+    rawTransactionsRoot A t1 = rawTransactionsRoot A t2 ∧ witnessesRoot A t1 ≠ witnessesRoot A t2 ∧
+      transactionsRoot A t1 ≠ transactionsRoot A t2 :=
+  ⟨raw_root_ignores_witnesses t1 t2 hraw, fun h => hne (witnessesRoot_inj cf t1 t2 h1 h2 h),
+    fun h => hne (transactionsRoot_inj cf t1 t2 h1 h2 h)⟩
+
+/-- proposals hash: zero when empty, else the hash of the concatenated ids -/
+theorem proposals_hash_cases (ps : List Bytes) :
+    proposalsHash A ps = if ps = [] then A.zero else A.hb ps.flatten := by
+  cases ps <;> simp [proposalsHash]
+
+/-- the proposals hash binds the list of short ids (content, count and order) -/
+theorem proposals_hash_binds_list (cf : CollisionFree A) (p1 p2 : List Bytes)
+    (h1 : ∀ p ∈ p1, p.length = 10) (h2 : ∀ p ∈ p2, p.length = 10)
+    (h : proposalsHash A p1 = proposalsHash A p2) : p1 = p2 :=
+  proposalsHash_inj cf p1 p2 h1 h2 h
+
+/-- … in particular the order: any reordering that changes the list changes the hash -/
+theorem proposals_hash_binds_order (cf : CollisionFree A) (p1 p2 : List Bytes)
+    (h1 : ∀ p ∈ p1, p.length = 10) (hperm : p1.Perm p2) (hne : p1 ≠ p2) :
+    proposalsHash A p1 ≠ proposalsHash A p2 :=
+  fun h => hne (proposalsHash_inj cf p1 p2 h1 (fun p hp => h1 p (hperm.mem_iff.mpr hp)) h)
+
+/-- extra hash: the uncles hash alone when there is no extension (zero when there are no uncles
+either), hash(uncles_hash ‖ extension_hash) when an extension is present -/
+theorem extra_hash_cases (us : List Bytes) (e : Option Bytes) :
+    extraHash A (unclesHash A us) (extensionHash A e) =
+      match e with
+      | none => if us = [] then A.zero else A.hd (us.map A.hb)
+      | some x => A.hd [if us = [] then A.zero else A.hd (us.map A.hb), A.hb x] := by
+  cases e <;> cases us <;> simp [extraHash, extensionHash, unclesHash]
+
+/-- the extra hash binds the uncle header list and the extension (presence and bytes).
+Uses the length separation: an uncle header hash has a 208-byte pre-image, an uncles hash a
+32·n-byte one. -/
+theorem extra_hash_binds_uncles_and_extension (cf : CollisionFree A) (u1 u2 : List Bytes)
+    (h1 : ∀ u ∈ u1, u.length = 208) (h2 : ∀ u ∈ u2, u.length = 208) (e1 e2 : Option Bytes)
+    (h : extraHash A (unclesHash A u1) (extensionHash A e1) = extraHash A (unclesHash A u2) (extensionHash A e2)) :
+    u1 = u2 ∧ e1 = e2 :=
+  extraHash_inj cf u1 u2 h1 h2 e1 e2 h
+
+/-- an extension that is present but empty is not the same commitment as no extension -/
+theorem extension_empty_vs_absent_distinct (cf : CollisionFree A) (us : List Bytes) (hu : ∀ u ∈ us, u.length = 208) :
+    extraHash A (unclesHash A us) (extensionHash A (some [])) ≠ extraHash A (unclesHash A us) (extensionHash A none) :=
+  fun h => (extraHash_none_ne_some cf us us hu []) h.symm
+
+/-- **`reset_header` commits to the body.** Two (structurally well-formed) bodies that get the same
+three header fields from `reset_header` are the same body: equal transaction lists (whole
+encodings, hence raw parts and witnesses), proposals, uncle header lists, extension presence+bytes. -/
+theorem reset_header_commits_body (cf : CollisionFree A) (b1 b2 : Body) (w1 : b1.WF) (w2 : b2.WF)
+    (htr : (resetFields A b1).transactionsRoot = (resetFields A b2).transactionsRoot)
+    (hph : (resetFields A b1).proposalsHash = (resetFields A b2).proposalsHash)
+    (hxh : (resetFields A b1).extraHash = (resetFields A b2).extraHash) :
+    b1.txs = b2.txs ∧ b1.txs.map txRaw = b2.txs.map txRaw ∧ b1.proposals = b2.proposals ∧
+      b1.uncles = b2.uncles ∧ b1.extension = b2.extension := by
+  have := resetFields_inj cf b1 b2 w1 w2 htr hph hxh
+  subst this
+  exact ⟨rfl, rfl, rfl, rfl, rfl⟩
+
+/-- **The block hash binds the body** (for blocks whose header was reset from their body): the hash
+changes if and only if a committed part changes — the literal header fields, the transactions
+(incl. witnesses), the proposals, the uncle headers, the extension. -/
+theorem block_hash_binds_body (cf : CollisionFree A) (lit1 lit2 : Bytes) (b1 b2 : Body) (w1 : b1.WF) (w2 : b2.WF) :
+    blockHash A lit1 (resetFields A b1) = blockHash A lit2 (resetFields A b2) ↔ (lit1 = lit2 ∧ b1 = b2) := by
+  constructor
+  · intro h
+    have := cf.hm_inj _ _ _ _ h
+    simp only [List.cons.injEq, and_true] at this
+    exact ⟨this.1, resetFields_inj cf b1 b2 w1 w2 this.2.1 this.2.2.1 this.2.2.2⟩
+  · rintro ⟨rfl, rfl⟩; rfl
+
+/-! layout facts behind `Body.WF` (from the molecule model and the generated schemas) -/
+
+theorem transaction_encoding_never_64 (v : Val) (hv : wfv S.Transaction v = true) :
+    (encode S.Transaction v).length ≠ 64 := by
+  have := transaction_length_ge_68 v hv; omega
+
+theorem header_encoding_is_208 (v : Val) (hv : wfv S.Header v = true) : (encode S.Header v).length = 208 :=
+  header_length_208 v hv
+
+theorem proposal_short_id_encoding_is_10 (v : Val) (hv : wfv S.ProposalShortId v = true) :
+    (encode S.ProposalShortId v).length = 10 :=
+  proposal_short_id_length_10 v hv
+
+/-- a body assembled from encodings of well-formed values is `WF` -/
+theorem body_of_encodings_wf (txs props uncles : List Val) (ext : Option Bytes)
+    (ht : ∀ v ∈ txs, wfv S.Transaction v = true) (hp : ∀ v ∈ props, wfv S.ProposalShortId v = true)
+    (hu : ∀ v ∈ uncles, wfv S.Header v = true) :
+    Body.WF { txs := txs.map (encode S.Transaction), proposals := props.map (encode S.ProposalShortId),
+              uncles := uncles.map (encode S.Header), extension := ext } := by
+  refine ⟨?_, ?_, ?_⟩
+  · intro t hm; obtain ⟨v, hv, rfl⟩ := List.mem_map.mp hm; exact transaction_encoding_never_64 v (ht v hv)
+  · intro t hm; obtain ⟨v, hv, rfl⟩ := List.mem_map.mp hm; exact proposal_short_id_encoding_is_10 v (hp v hv)
+  · intro t hm; obtain ⟨v, hv, rfl⟩ := List.mem_map.mp hm; exact header_encoding_is_208 v (hu v hv)
+
+/-! byte level: the body the model reads out of block bytes (`bodyOfBlock`, what the `vblk` op of
+stream `view` feeds to `resetFields`) is exactly what the builders wrote -/
+
+/-- `BlockV1` builder, then read as a compatible `Block`: the parts come back as the encodings of
+the parts, the extension is PRESENT with the raw bytes of the `Bytes` value (also when empty) -/
+theorem body_of_encoded_block_v1 (h : Val) (us : List (Val × Val)) (ts ps : List Val) (ext : Val)
+    (hv : wfv S.BlockV1 (.seq [h, .seq (us.map uncleVal), .seq ts, .seq ps, ext]) = true) :
+    bodyOfBlock (encode S.BlockV1 (.seq [h, .seq (us.map uncleVal), .seq ts, .seq ps, ext])) =
+      some (encode S.Header h,
+        { txs := ts.map (encode S.Transaction), proposals := ps.map (encode S.ProposalShortId),
+          uncles := us.map (fun u => encode S.Header u.1), extension := some ((encode S.Bytes ext).drop 4) }) :=
+  bodyOfBlock_encode_BlockV1 h us ts ps ext hv
+
+/-- `Block` builder (four fields): the extension is ABSENT -/
+theorem body_of_encoded_block (h : Val) (us : List (Val × Val)) (ts ps : List Val)
+    (hv : wfv S.Block (.seq [h, .seq (us.map uncleVal), .seq ts, .seq ps]) = true) :
+    bodyOfBlock (encode S.Block (.seq [h, .seq (us.map uncleVal), .seq ts, .seq ps])) =
+      some (encode S.Header h,
+        { txs := ts.map (encode S.Transaction), proposals := ps.map (encode S.ProposalShortId),
+          uncles := us.map (fun u => encode S.Header u.1), extension := none }) :=
+  bodyOfBlock_encode_Block h us ts ps hv
+
+/-- end to end on bytes: the same parts built once as a `BlockV1` with an EMPTY extension and once
+as a `Block` without one get different `extra_hash` fields from `reset_header` -/
+theorem empty_extension_block_bytes_distinct (cf : CollisionFree A) (h : Val) (us : List (Val × Val)) (ts ps : List Val)
+    (hv1 : wfv S.BlockV1 (.seq [h, .seq (us.map uncleVal), .seq ts, .seq ps, .seq []]) = true)
+    (hv0 : wfv S.Block (.seq [h, .seq (us.map uncleVal), .seq ts, .seq ps]) = true)
+    (hd1 hd0 : Bytes) (b1 b0 : Body)
+    (e1 : bodyOfBlock (encode S.BlockV1 (.seq [h, .seq (us.map uncleVal), .seq ts, .seq ps, .seq []])) = some (hd1, b1))
+    (e0 : bodyOfBlock (encode S.Block (.seq [h, .seq (us.map uncleVal), .seq ts, .seq ps])) = some (hd0, b0)) :
+    (resetFields A b1).extraHash ≠ (resetFields A b0).extraHash := by
+  rw [body_of_encoded_block_v1 h us ts ps _ hv1] at e1
+  rw [body_of_encoded_block h us ts ps hv0] at e0
+  cases e1; cases e0
+  have hu : ∀ u ∈ us.map (fun u => encode S.Header u.1), u.length = 208 := by
+    intro x hx
+    obtain ⟨u, hum, rfl⟩ := List.mem_map.mp hx
+    have hw : wfv S.UncleBlock (uncleVal u) = true := by
+      simp only [S.Block, S.UncleBlockVec, wfv, wfvL, Bool.and_eq_true] at hv0
+      exact Molecule.all_mem hv0.1.2.1.1 _ (List.mem_map.mpr ⟨u, hum, rfl⟩)
+    simp only [S.UncleBlock, uncleVal, wfv, wfvL, Bool.and_eq_true] at hw
+    exact header_encoding_is_208 u.1 hw.1.1
+  exact extension_empty_vs_absent_distinct cf _ hu
+
+/-- a well-formed `RawTransaction` (no cells, one 4-byte output datum) whose encoding is exactly 64
+bytes: the pre-image length does NOT separate raw-transaction leaves from CBMT inner nodes -/
+def exRaw64 : Val :=
+  .seq [.seq [.byte 0, .byte 0, .byte 0, .byte 0], .seq [], .seq [], .seq [], .seq [],
+        .seq [.seq [.byte 1, .byte 2, .byte 3, .byte 4]]]
+
+theorem raw_transaction_can_be_64 : wfv S.RawTransaction exRaw64 = true ∧ (encode S.RawTransaction exRaw64).length = 64 := by
+  decide +kernel
+
+/-! non-vacuity of the hash-structure theorems (free term algebra, concrete bodies) -/
+
+def exBody : Body :=
+  { txs := [List.replicate 68 1, List.replicate 70 2], proposals := [List.replicate 10 7, List.replicate 10 8],
+    uncles := [List.replicate 208 3], extension := some [] }
+
+theorem exBody_wf : exBody.WF := by
+  refine ⟨?_, ?_, ?_⟩ <;> intro x hx <;> simp only [exBody, List.mem_cons, List.not_mem_nil, or_false] at hx
+  · rcases hx with rfl | rfl <;> simp only [List.length_replicate] <;> omega
+  · rcases hx with rfl | rfl <;> simp only [List.length_replicate]
+  · subst hx; simp only [List.length_replicate]
+
+example : Injective2 (Tm.node : Tm Nat → Tm Nat → Tm Nat) := Tm.node_inj2
+example : cbmtRoot Tm.node (Tm.atom 0) [Tm.atom 1, Tm.atom 2, Tm.atom 3]
+    = Tm.node (Tm.node (Tm.atom 2) (Tm.atom 3)) (Tm.atom 1) := rfl
+example : [Tm.atom 1, Tm.atom 2, Tm.atom 3] = [Tm.atom 1, Tm.atom 2, Tm.atom (3 : Nat)] :=
+  cbmt_root_injective_same_length Tm.node Tm.node_inj2 (Tm.atom 0) _ _ rfl rfl
+/-- empty vs absent extension on a concrete body, in the term algebra -/
+example : (resetFields termAlg exBody).extraHash ≠ (resetFields termAlg { exBody with extension := none }).extraHash :=
+  extension_empty_vs_absent_distinct collision_free_satisfiable exBody.uncles exBody_wf.2.2
+/-- swapping the two proposals changes the proposals hash -/
+example : proposalsHash termAlg exBody.proposals ≠ proposalsHash termAlg exBody.proposals.reverse :=
+  proposals_hash_binds_order collision_free_satisfiable _ _ exBody_wf.2.1 (List.reverse_perm _).symm (by decide)
+example : blockHash termAlg [1] (resetFields termAlg exBody) = blockHash termAlg [1] (resetFields termAlg exBody) ↔
+    (([1] : Bytes) = [1] ∧ exBody = exBody) :=
+  block_hash_binds_body collision_free_satisfiable [1] [1] exBody exBody exBody_wf exBody_wf
+
+end hash_structure
+
+/-! ### the VIEW layer: cached hashes always equal recomputation
+
+Model: `Model/HashView.lean` (`views.rs`, `advanced_builders.rs`, `reset_header_with_hashes`).
+`BlockView.Consistent` = every cache (block hash, uncle hashes, tx hashes, witness hashes) equals
+recomputation from the view's own data; `BlockData.Committed` = the header's three commitment
+fields are what `reset_header` computes from the body.  Every constructor establishes
+`Consistent`, every builder path preserves it, the reset paths establish `Committed`, and the
+builder path and the packed path produce the same view. -/
+section view_layer
+open CkbVerif.Hash
+variable {D : Type} (A : HashAlg D)
+
+/-- `packed::Block::into_view()`: caches equal recomputation, the header commits to the body, the
+body and the other header fields are untouched -/
+theorem into_view_sound (b : BlockData D) :
+    (intoView A b).Consistent A ∧ (intoView A b).data.Committed A ∧ (intoView A b).data.body = b.body ∧
+      (intoView A b).data.lit = b.lit ∧ (intoView A b).data.uncles = b.uncles :=
+  ⟨intoView_consistent A b, intoView_committed A b, (intoView_keeps A b).1, (intoView_keeps A b).2.1, (intoView_keeps A b).2.2⟩
+
+/-- `into_view_without_reset_header()`: caches equal recomputation, the block is untouched -/
+theorem into_view_without_reset_sound (b : BlockData D) :
+    (intoViewWithoutReset A b).Consistent A ∧ (intoViewWithoutReset A b).data = b :=
+  ⟨intoViewWithoutReset_consistent A b, rfl⟩
+
+/-- `reset_header()` (= `reset_header_with_hashes` with the block's own hashes): the header commits
+to the body — all three fields, whatever the header contained before — and nothing else changes -/
+theorem reset_header_sound (b : BlockData D) :
+    (resetHeader A b).Committed A ∧ (resetHeader A b).body = b.body ∧ (resetHeader A b).lit = b.lit ∧
+      resetHeaderWithHashes A b (b.txs.map (txHash A)) (b.txs.map (witnessHash A)) = resetHeader A b :=
+  ⟨resetHeader_committed A b, (resetHeader_keeps A b).1, (resetHeader_keeps A b).2.1, rfl⟩
+
+/-- `BlockView::transaction(i)` and `BlockView::transactions()[i]` are the same view (data, hash
+AND witness hash), for every view and index -/
+theorem block_transaction_accessors_agree (v : BlockView D) (i : Nat) : v.transaction i = v.transactions[i]? :=
+  transaction_eq_transactions_get v i
+
+/-- on a consistent view every accessor returns recomputed hashes: `header()`, `transactions()`,
+`transaction(i)`, `uncles()` -/
+theorem consistent_view_accessors (v : BlockView D) (hc : v.Consistent A) :
+    v.header.Ok A ∧ v.transactions = v.data.txs.map (txIntoView A) ∧
+      (∀ i, v.transaction i = (v.data.txs[i]?).map (txIntoView A)) ∧ v.uncles = v.data.uncles.map (uncleIntoView A) :=
+  ⟨header_ok A v hc, transactions_ok A v hc, fun i => transaction_ok A v hc i, uncles_ok A v hc⟩
+
+/-- `BlockBuilder::build()` / `build_unchecked()` from parts whose caches are right: the caches of
+the result are right, the body is the builder's parts; with reset the header commits to that body -/
+theorem builder_build_sound (b : BlockBuilder D) (ht : ∀ t ∈ b.transactions, t.Ok A) (hu : ∀ u ∈ b.uncles, u.Ok A) :
+    (b.build A).Consistent A ∧ (b.buildUnchecked A).Consistent A ∧ (b.build A).data.Committed A ∧
+      (b.build A).data.body = { txs := b.transactions.map (·.data), proposals := b.proposals,
+                                uncles := b.uncles.map (·.data.header), extension := b.extension } ∧
+      (b.build A).data.lit = b.header.lit ∧ (b.buildUnchecked A).data.fields = b.header.fields :=
+  ⟨buildInternal_consistent A b true ht hu, buildInternal_consistent A b false ht hu, build_committed A b ht,
+    buildInternal_body A b true, rfl, rfl⟩
+
+/-- the parts handed out by `as_advanced_builder()` (of a consistent view, or of a packed block)
+have right caches -/
+theorem as_advanced_builder_parts_ok (v : BlockView D) (hc : v.Consistent A) (b : BlockData D) :
+    ((∀ t ∈ v.asAdvancedBuilder.transactions, t.Ok A) ∧ (∀ u ∈ v.asAdvancedBuilder.uncles, u.Ok A)) ∧
+      ((∀ t ∈ (b.asAdvancedBuilder A).transactions, t.Ok A) ∧ (∀ u ∈ (b.asAdvancedBuilder A).uncles, u.Ok A)) :=
+  ⟨view_asAdvancedBuilder_ok A v hc, packed_asAdvancedBuilder_ok A b⟩
+
+/-- `as_advanced_builder().build_unchecked()` is the identity on consistent views;
+`as_advanced_builder().build()` is the identity on consistent views whose header commits to the body -/
+theorem as_advanced_builder_roundtrip (v : BlockView D) (hc : v.Consistent A) :
+    v.asAdvancedBuilder.buildUnchecked A = v ∧ (v.data.Committed A → v.asAdvancedBuilder.build A = v) :=
+  ⟨rebuild_unchecked_identity A v hc, rebuild_identity A v hc⟩
+
+/-- the advanced-builder path and the packed path agree: building a packed block's parts back with
+`as_advanced_builder().build()` is `into_view()` -/
+theorem packed_builder_path_eq_into_view (b : BlockData D) : (b.asAdvancedBuilder A).build A = intoView A b := by
+  simp [BlockBuilder.build, BlockBuilder.buildInternal, BlockData.asAdvancedBuilder, intoView, blockIntoViewInternal,
+    resetHeaderWithHashes, HeaderBuilder.build, txIntoView, uncleIntoView, List.map_map, Function.comp_def]
+
+/-- **changing only the proposals re-binds the header** (the class of the `reset_header` fast-path
+regression): from a consistent view, `as_advanced_builder().set_proposals(ps).build()` equals
+`into_view()` of the packed block with the proposals replaced; its caches are right, its header
+commits to the new body, and `proposals_hash` is the hash of the NEW proposals -/
+theorem set_proposals_rebinds_header (v : BlockView D) (hc : v.Consistent A) (ps : List Bytes) :
+    ({ v.asAdvancedBuilder with proposals := ps } : BlockBuilder D).build A = intoView A { v.data with proposals := ps } ∧
+      (intoView A { v.data with proposals := ps }).data.fields.proposalsHash = proposalsHash A ps := by
+  refine ⟨?_, rfl⟩
+  obtain ⟨⟨lit, fields, uncles, txs, props, ext⟩, hash, uh, th, wh⟩ := v
+  obtain ⟨h1, h2, h3, h4⟩ := hc
+  simp only at h1 h2 h3 h4
+  subst h1 h2 h3 h4
+  simp [BlockBuilder.build, BlockBuilder.buildInternal, BlockView.asAdvancedBuilder, intoView, blockIntoViewInternal,
+    resetHeaderWithHashes, HeaderBuilder.build, zipTx_map, zipUncle_map, List.map_map, Function.comp_def]
+
+/-- **the block hash of a view changes iff a committed part changes** (consistent views whose
+headers commit to well-formed bodies) -/
+theorem view_hash_changes_iff (cf : CollisionFree A) (v1 v2 : BlockView D) (c1 : v1.Consistent A) (c2 : v2.Consistent A)
+    (m1 : v1.data.Committed A) (m2 : v2.data.Committed A) (w1 : v1.data.body.WF) (w2 : v2.data.body.WF) :
+    v1.hash = v2.hash ↔ (v1.data.lit = v2.data.lit ∧ v1.data.body = v2.data.body) :=
+  view_hash_eq_iff A cf v1 v2 c1 c2 m1 m2 w1 w2
+
+/-- `BlockView::new_unchecked*`: nothing is recomputed — the result is consistent exactly because
+the given parts are -/
+theorem new_unchecked_sound (header : HeaderView D) (uncles : List Uncle) (uncleHashes : List D)
+    (body : List (TxView D)) (proposals : List Bytes) (extension : Option Bytes)
+    (hh : header.Ok A) (hu : uncleHashes = uncles.map (fun u => A.hb u.header)) (hb : ∀ t ∈ body, t.Ok A) :
+    (newUnchecked header uncles uncleHashes body proposals extension).Consistent A :=
+  newUnchecked_consistent A header uncles uncleHashes body proposals extension hh hu hb
+
+/-! non-vacuity -/
+
+def exData : BlockData Dg :=
+  { lit := [1, 2, 3], fields := { transactionsRoot := .zero, proposalsHash := .zero, extraHash := .zero },
+    uncles := [{ header := List.replicate 208 3, proposals := [List.replicate 10 9] }],
+    txs := exBody.txs, proposals := exBody.proposals, extension := some [] }
+
+example : (intoView termAlg exData).Consistent termAlg := (into_view_sound termAlg exData).1
+example : (intoView termAlg exData).data.fields.proposalsHash = Dg.hb (exBody.proposals.flatten) := rfl
+/-- the stored (wrong) fields of `exData` are kept by the non-reset path -/
+example : (intoViewWithoutReset termAlg exData).data.fields.proposalsHash = Dg.zero := rfl
+def exData' : BlockData Dg := { exData with proposals := exData.proposals.reverse }
+theorem exData_body_wf : (intoView termAlg exData).data.body.WF := exBody_wf
+theorem exData'_body_wf : (intoView termAlg exData').data.body.WF :=
+  ⟨exBody_wf.1, fun p hp => exBody_wf.2.1 p (List.mem_reverse.mp hp), exBody_wf.2.2⟩
+/-- reversing the proposals changes the block hash of the view -/
+example : (intoView termAlg exData).hash ≠ (intoView termAlg exData').hash := by
+  intro h
+  have := (view_hash_changes_iff termAlg collision_free_satisfiable _ _ (intoView_consistent _ exData)
+    (intoView_consistent _ exData') (intoView_committed _ _) (intoView_committed _ _) exData_body_wf exData'_body_wf).mp h
+  exact absurd (congrArg Body.proposals this.2) (by decide)
+
+end view_layer
 
 /-! ### JSON scalars (`JsonUint<T>`, `JsonBytes`) -/
 
